@@ -44,11 +44,14 @@ out.append("")
 rroot = os.path.join(V, "seeded", "refactors")
 if os.path.isdir(rroot):
     out.append("### Behaviour-preserving refactorings written by sub-agents\n")
-    out.append("Six agents (one per source area) each wrote four independent refactorings that keep all observable behaviour\n"
-               "(existing tests re-confirmed). `selftest/run_refactors.py` applies each to a scratch copy and runs **all** property\n"
-               "checks; every check must stay silent. `alarms` is the state after the rules were made robust; `first run` is the\n"
-               "honest history (11 of the 24 raised false alarms at first, each traced to a rule that matched a code shape instead of\n"
-               "a meaning and rewritten, see section 0).\n")
+    out.append("Five waves of six agents (one per source area) each wrote four independent refactorings that keep all observable\n"
+               "behaviour (existing 70+5 tests re-confirmed for each). `selftest/run_refactors.py` applies each to a scratch copy and runs\n"
+               "the property checks; every check must stay silent. `alarms now` is the result of the last run after the rules and the\n"
+               "interpreter were made robust; the honest history of first runs (11, 10, 8, 14 and 7 of 24 alarmed at first) and what each\n"
+               "wave changed in the machinery is in section 0. Coverage of that last run: the sixteen fast checks (C01-C08, C10, C13-C18, C20)\n"
+               "on all 120; the typestate checks C09/C11/C12 (minutes each) on waves 1-2 (48 refactorings) and on ref-A3-1..4, ref-A4-1,\n"
+               "ref-A4-2 - the rest of waves 3-5 was not run against them for lack of time. One refactoring is still reported although\n"
+               "behaviour is unchanged: ref-D5-3 (known limitation, section 0 / section 9).\n")
     out.append("| refactoring | what it restructures | alarms now |")
     out.append("|---|---|---|")
     for rid in sorted(os.listdir(rroot)):
